@@ -40,7 +40,13 @@ class C17(core.Check):
             if st[2] or st[0] in c01.VOIDS:
                 st = ['div', [], False, [st, 'tail']]
             doctype = rng.random() < 0.3
-            cases.append(dict(kind=KINDS[i % 2], flags=[rng.random() < 0.7 for _ in range(4)], tree=st, doctype=doctype, protocol=i % 6,
+            multi = None
+            if i % 4 == 3 and i % 5 != 4:
+                # a multi-root document: text and a second element after the first root
+                multi = [rng.choice(['mid', ' ', '&amp;', '<!--c-->', '']), c01.gen_tree(rng, maxdepth=2, budget=[4]), rng.choice(['', ' tail'])]
+                if multi[1][2] or multi[1][0] in c01.VOIDS:
+                    multi[1] = ['p', [], False, ['x']]
+            cases.append(dict(kind=KINDS[i % 2], flags=[rng.random() < 0.7 for _ in range(4)], tree=st, doctype=doctype, protocol=i % 6, multi=multi,
                               detached=(i % 5 == 4), side=rng.choice(['copy', 'orig']), edit=rng.choice(EDITS), sel=rng.random(),
                               clones=[rng.random() for _ in range(3)]))
         self.stats.update(trees=n)
@@ -49,7 +55,11 @@ class C17(core.Check):
     # ------------------------------------------------------------------
     @staticmethod
     def _html(case):
-        return ('<!DOCTYPE html>' if case['doctype'] else '') + c02.render(c01.tree_tokens(case['tree']), None)
+        toks = c01.tree_tokens(case['tree'])
+        m = case.get('multi')
+        if m and not case.get('detached'):
+            toks = toks + ([['T', m[0]]] if m[0] else []) + c01.tree_tokens(m[1]) + ([['T', m[2]]] if m[2] else [])
+        return ('<!DOCTYPE html>' if case['doctype'] else '') + c02.render(toks, None)
 
     @staticmethod
     def _mk(case):
@@ -62,7 +72,7 @@ class C17(core.Check):
     @staticmethod
     def _edit(root, case, parser=None):
         from AdvancedHTMLParser.Tags import AdvancedTag
-        els = pc.preorder(root)
+        els = [x for x in pc.preorder(root) if x.tagName != 'xxxblank'] or pc.preorder(root)     # not the invisible wrapper: its tag is never printed
         e = els[int(case['sel'] * len(els)) % len(els)]
         k = case['edit']
         if k == 'setattr':
